@@ -433,7 +433,7 @@ pub fn run(thorough: bool) -> i32 {
         let per_transfer = t + (b.oti.parity as usize) * ((t + b.oti.b as usize - 1) / (b.oti.b as usize).max(1));
         let total = 1 + per_transfer.max(1) * b.count as usize * if b.carousel { 3 } else { 1 };
         for i in 0..=total.min(40) {
-            for imm in [None, Some(true)] {
+            for imm in [None, Some(true), Some(false)] {
                 let mut c = b.clone();
                 c.remove_at = Some(i);
                 c.immediate_stop = imm;
